@@ -892,7 +892,23 @@ func c08EvalAuth(args []string) string {
 			hello("s2c", true, func(h *c08Hello) { h.comps = []byte{1} })
 		case "mitm-sh-ext-add":
 			hello("s2c", true, addExt)
-		case "mitm-cert-swap-sign", "mitm-cert-swap-enc", "mitm-cert-reorder", "mitm-cert-truncate", "mitm-cert-empty", "mitm-cert-append":
+		case "mitm-cert-swap-sign", "mitm-cert-swap-enc", "mitm-cert-reorder", "mitm-cert-truncate", "mitm-cert-empty", "mitm-cert-append", "mitm-cert-append-foreign":
+			if attack == "mitm-cert-append-foreign" {
+				// the client's trust must not outlive the handshake: it gets a pool of its own, and afterwards the same
+				// configuration must still refuse a server certified by the CA that was slipped into the message
+				pool := x509.NewCertPool()
+				pool.AddCert(m.ca)
+				st.ccfg.RootCAs = pool
+				ccfg2 := st.ccfg
+				post = func() string {
+					scfg2 := gmServerCfg(o)
+					second, _, _ := c08Run(ccfg2, scfg2, nil)
+					if second.c.done && !ccfg2.InsecureSkipVerify {
+						return "ORACLE-FAIL:client-trusts-a-ca-it-saw-in-an-earlier-handshake"
+					}
+					return ""
+				}
+			}
 			onMsg("s2c", c08HsCertificate, func(a *c08MitmState, msg c08Msg) []c08Msg {
 				certs, ok := c08ParseCertMsg(msg.body)
 				if !ok || len(certs) < 2 {
@@ -911,6 +927,8 @@ func c08EvalAuth(args []string) string {
 					certs = nil
 				case "mitm-cert-append":
 					certs = append(certs, m.ca.Raw)
+				case "mitm-cert-append-foreign":
+					certs = append(certs, o.ca.Raw)
 				}
 				return []c08Msg{{c08HsCertificate, c08CertMsgBody(certs)}}
 			})
@@ -1180,7 +1198,7 @@ var c08MitmAttacks = []string{"mitm-ch-version", "mitm-ch-version-low", "mitm-ch
 	"mitm-ch-suites-reorder", "mitm-ch-suites-append", "mitm-ch-compression", "mitm-ch-compression-only", "mitm-ch-ext-strip",
 	"mitm-ch-ext-sni", "mitm-ch-ext-add", "mitm-sh-version", "mitm-sh-version-low", "mitm-sh-random", "mitm-sh-sessionid",
 	"mitm-sh-suite", "mitm-sh-suite-ecdhe", "mitm-sh-compression", "mitm-sh-ext-add", "mitm-cert-swap-sign", "mitm-cert-swap-enc",
-	"mitm-cert-reorder", "mitm-cert-truncate", "mitm-cert-empty", "mitm-cert-append", "mitm-ske-flip", "mitm-ske-replay",
+	"mitm-cert-reorder", "mitm-cert-truncate", "mitm-cert-empty", "mitm-cert-append", "mitm-cert-append-foreign", "mitm-ske-flip", "mitm-ske-replay",
 	"mitm-ske-drop", "mitm-cr-types", "mitm-cr-cas", "mitm-cr-drop", "mitm-cr-insert", "mitm-ccert-swap", "mitm-ccert-empty",
 	"mitm-cke-flip", "mitm-cke-replay", "mitm-cv-flip", "mitm-cv-replay", "mitm-cv-drop", "mitm-cfin-flip", "mitm-sfin-flip",
 	"mitm-cccs-drop", "mitm-sccs-drop"}
